@@ -23,8 +23,10 @@ same digest cache**, and ignore caches related as follows:
 * the accelerated ignore cache is a **sub-map** of the cold one (every binding of
   the accelerated cache is a binding of the cold cache);
 * a binding of the cold cache can be missing from the accelerated one **only at or
-  below a directory path that is not dirty** — everywhere else the two caches
-  are equal.
+  below a directory path `cp` that is not dirty and at which the baseline has an
+  entry `B`** (`BaseAt E₀ cp B`), **and only if its key is not the key of a tracked
+  entry of `B`** (content that the baseline ignores, does not track, reports as
+  problematic or does not have) — everywhere else the two caches are equal.
 Below a directory that is not dirty the scan does not descend: it walks the
 baseline entry instead (scan.go:527-560), and `walk_carries_over` says exactly
 which bindings that walk produces: the old ignore cache's bindings for the keys
@@ -32,8 +34,15 @@ which bindings that walk produces: the old ignore cache's bindings for the keys
 untracked nor problematic (`TrackedKey`); keys of ignored content (absent from
 the baseline), of untracked and of problematic entries are dropped, as are keys
 the old cache does not bind.  `cold_cache_binds_tracked_keys` shows the old
-cache (a cold scan's) does bind every such key, so on an unchanged sub-tree
-exactly the keys of ignored, untracked and problematic content are dropped.
+cache (a cold scan's) does bind every such key, so
+(`walk_carries_every_tracked_key`) the walk over a baseline sub-tree carries over
+the keys of its tracked entries, all of them and nothing else; what is dropped
+are the keys of ignored, untracked and problematic content.
+`reused_directory_step` is the loop step that uses the walk.
+
+`accel_eq_cold_file_root` is the same statement for roots that are regular
+files.  `same_root_device_needed`: the theorem does not extend to a root that
+moved to another device.
 
 The hypotheses are exactly the property's: `content_change_must_be_visible`
 and `changes_must_be_reported` below show, on concrete trees, that dropping
@@ -53,6 +62,30 @@ theorem no_recheck_aux (cfg : Cfg) (out₀ : Out) (dev : Nat) (cs : Children) (E
   unfold scan prevOf
   simp [hroot, hk, hx, hd]
 
+/-- A cold scan's ignore cache binds the key of every tracked entry of its snapshot
+(the root itself excepted: nothing asks whether the root is ignored). -/
+theorem cold_cache_binds_tracked_keys (cfg : Cfg) (dev : Nat) (cs : Children) (out : Out) (E : Entry)
+    (h : scanCold cfg (some (.dir dev cs)) = .ok out) (hroot : out.snapshot.content = some E)
+    (k : String × Bool) (hk : TrackedKey "" E k) : k = ("", true) ∨ ∃ v, alookup k out.ignoreCache = some v := by
+  rw [Mutagen.Proofs.ScanFS.scanCold_dir] at h
+  have hc := coldKeys_node { cfg with deviceID := dev } (.dir dev cs) "" true false (.none, "")
+  simp only [Mutagen.Proofs.ScanCold.cold] at hc
+  revert h hc
+  cases scanNode { cfg with deviceID := dev } {} "" true none false (.none, "") (.dir dev cs) {} with
+  | mk r d =>
+    cases r with
+    | entry e =>
+      simp only [outOf]
+      intro h hc
+      cases h
+      simp only at hroot
+      cases hroot
+      rcases hc E rfl k hk with h1 | h1
+      · exact Or.inl h1
+      · exact Or.inr (key_alookup _ k h1)
+    | notExist => simp [outOf]
+    | abort => simp [outOf]
+
 /-- `accel_eq_cold`. -/
 theorem accel_eq_cold (cfg : Cfg) (dev : Nat) (cs₀ cs₁ : Children) (recheck dirty : List String) (out₀ : Out) (E₀ : Entry)
     (hnames₀ : NamesOK cfg validName (.dir dev cs₀)) (hnames₁ : NamesOK cfg validName (.dir dev cs₁))
@@ -67,7 +100,8 @@ theorem accel_eq_cold (cfg : Cfg) (dev : Nat) (cs₀ cs₁ : Children) (recheck 
       (∀ k v, alookup k c.ignoreCache = some v → v = cfg.ignorer k.1 k.2) ∧
       (∀ k v, alookup k w.ignoreCache = some v → alookup k c.ignoreCache = some v) ∧
       (∀ k v, alookup k c.ignoreCache = some v →
-        alookup k w.ignoreCache = some v ∨ ∃ cp, cp ≠ "" ∧ cp ∉ dirty ∧ Under k.1 cp)
+        alookup k w.ignoreCache = some v ∨
+        ∃ cp B, cp ≠ "" ∧ cp ∉ dirty ∧ BaseAt E₀ cp B ∧ Under k.1 cp ∧ ¬ TrackedKey cp B k)
     | .error e, .error e' => e = e'
     | _, _ => False := by
   have h := accel_eq_cold_core cfg dev cs₀ cs₁ recheck dirty out₀ E₀ hnames₀ hnames₁ hbase hroot hrootKind hrecheck hdirty hcovers
@@ -87,7 +121,14 @@ theorem accel_eq_cold (cfg : Cfg) (dev : Nat) (cs₀ cs₁ : Children) (recheck 
       · left
         obtain ⟨v', hv'⟩ := key_alookup _ k hw
         rw [hv', ignOK_lookup cfg _ h3 k v' hv', ignOK_lookup cfg _ h4 k v hk]
-      · exact Or.inr hd
+      · right
+        obtain ⟨cp, B, hne, hnd, hat, hu, hnot⟩ := hd
+        refine ⟨cp, B, hne, hnd, hat, hu, ?_⟩
+        intro ht
+        rcases cold_cache_binds_tracked_keys cfg dev cs₀ out₀ E₀ hbase hroot k (trackedKey_lift E₀ cp B k hat ht) with h0 | ⟨v0, h0⟩
+        · rw [h0] at hu
+          exact hne (under_empty cp hu)
+        · exact hnot ⟨ht, alookup_some_key _ k v0 h0⟩
 
 /-- `accel_eq_cold` for a root that is a regular file (before and after): with
 recheck paths, the accelerated scan equals the cold scan — same snapshot, same
@@ -109,6 +150,27 @@ theorem accel_eq_cold_file_root (cfg : Cfg) (content₀ : Bytes) (perm₀ : Nat)
     | _, _ => False :=
   accel_eq_cold_file_core cfg content₀ perm₀ mtime₀ size₀ ino₀ content₁ perm₁ mtime₁ size₁ ino₁ recheck dirty out₀
     hbase hrecheck hdirty (by simpa [Covers] using hcovers)
+
+/-- With the old caches of a cold scan, the baseline walk at a path where the baseline
+has the entry `B` carries over the keys of the tracked entries of `B` — all of
+them and no other key. -/
+theorem walk_carries_every_tracked_key (cfg : Cfg) (dev : Nat) (cs₀ : Children) (out₀ : Out) (E₀ : Entry)
+    (hbase : scanCold cfg (some (.dir dev cs₀)) = .ok out₀) (hroot : out₀.snapshot.content = some E₀)
+    (acc : Accel) (hacc : acc.ignoreCache = out₀.ignoreCache) (cp : String) (B : Entry) (hat : BaseAt E₀ cp B)
+    (k : String × Bool) :
+    (k ∈ ikeys (reuseWalk acc cp B ({}, false)).1.newIgnore → TrackedKey cp B k) ∧
+    (TrackedKey cp B k → k = ("", true) ∨ k ∈ ikeys (reuseWalk acc cp B ({}, false)).1.newIgnore) := by
+  constructor
+  · intro hk
+    simp only [ikeys, List.mem_map] at hk
+    obtain ⟨kv, hkv, rfl⟩ := hk
+    exact ((reuseWalk_ign acc B cp kv).mp hkv).1
+  · intro ht
+    rcases cold_cache_binds_tracked_keys cfg dev cs₀ out₀ E₀ hbase hroot k (trackedKey_lift E₀ cp B k hat ht) with h0 | ⟨v, hv⟩
+    · exact Or.inl h0
+    · right
+      simp only [ikeys, List.mem_map]
+      exact ⟨(k, v), (reuseWalk_ign acc B cp (k, v)).mpr ⟨ht, by rw [hacc]; exact hv⟩, rfl⟩
 
 /-- The loop step for a directory that is reused (scan.go:527-560): when the ignore
 stage lets the child through (`.go`), its baseline entry `B` is usable
@@ -137,30 +199,6 @@ theorem walk_carries_over (acc : Accel) (baseline : Entry) (path : String) (k : 
     (k, v) ∈ (reuseWalk acc path baseline ({}, false)).1.newIgnore ↔
       TrackedKey path baseline k ∧ alookup k acc.ignoreCache = some v :=
   reuseWalk_ign acc baseline path (k, v)
-
-/-- A cold scan's ignore cache binds the key of every tracked entry of its snapshot
-(the root itself excepted: nothing asks whether the root is ignored). -/
-theorem cold_cache_binds_tracked_keys (cfg : Cfg) (dev : Nat) (cs : Children) (out : Out) (E : Entry)
-    (h : scanCold cfg (some (.dir dev cs)) = .ok out) (hroot : out.snapshot.content = some E)
-    (k : String × Bool) (hk : TrackedKey "" E k) : k = ("", true) ∨ ∃ v, alookup k out.ignoreCache = some v := by
-  rw [Mutagen.Proofs.ScanFS.scanCold_dir] at h
-  have hc := coldKeys_node { cfg with deviceID := dev } (.dir dev cs) "" true false (.none, "")
-  simp only [Mutagen.Proofs.ScanCold.cold] at hc
-  revert h hc
-  cases scanNode { cfg with deviceID := dev } {} "" true none false (.none, "") (.dir dev cs) {} with
-  | mk r d =>
-    cases r with
-    | entry e =>
-      simp only [outOf]
-      intro h hc
-      cases h
-      simp only at hroot
-      cases hroot
-      rcases hc E rfl k hk with h1 | h1
-      · exact Or.inl h1
-      · exact Or.inr (key_alookup _ k h1)
-    | notExist => simp [outOf]
-    | abort => simp [outOf]
 
 /-- Without recheck paths an unchanged tree is answered from the base alone, and
 that answer is the cold scan's. -/
@@ -247,8 +285,9 @@ test (scan.go:333) sits in the directory handler, which a reused directory never
 reaches (scan.go:527-533): if the root moves to another device while an unchanged,
 not dirty sub-directory stays on the old one, the accelerated scan keeps the
 sub-directory's old content where the cold scan reports "scan crossed filesystem
-boundary".  (A statement about the model; in the code it was checked by reading,
-the C13 tie does not move roots between devices.) -/
+boundary".  (A statement about the model.  `harness/cmd/c13dev` builds this
+scenario with a tmpfs root and a bind mount and shows the same difference for the
+real `core.Scan`; the C13 tie itself does not move roots between devices.) -/
 theorem same_root_device_needed :
     kindAt (accelAfter (exCfg decAB) fsBefore ["a"] fsMoved) ["b"] = some .directory ∧
     kindAt (scanCold (exCfg decAB) (some fsMoved)) ["b"] = some .problematic := by decide +kernel
